@@ -9,39 +9,43 @@ the Python keeps them provable, a change of the arithmetic does not.
 namespace DirectVerif.Bridge.C10
 open DirectVerif DirectVerif.Crop DirectVerif.Gen.C10
 
+/-- closing script for integer bridges: unfold Python max/min and decide, split conditionals, linear arithmetic with `/ 2` -/
+macro "bridge_arith" : tactic =>
+  `(tactic| ((try simp only [pyMax, pyMin, decide_eq_true_eq, Int.fdiv_eq_ediv_of_nonneg _ (by decide : (0:Int) ≤ 2)]) <;> (repeat' split) <;> omega))
+
 theorem center_crop_width_lower_eq (dn2 sn2 dn1 sn1 : Int) :
     center_crop_width_lower dn2 sn2 dn1 sn1 = centerCropLower dn2 sn2 := by
-  simp only [center_crop_width_lower, centerCropLower, Int.fdiv_eq_ediv_of_nonneg _ (by decide : (0:Int) ≤ 2)]
+  simp only [center_crop_width_lower, centerCropLower, Int.fdiv_eq_ediv_of_nonneg _ (by decide : (0:Int) ≤ 2)] <;> bridge_arith
 
 theorem center_crop_width_upper_eq (dn2 sn2 dn1 sn1 : Int) :
     center_crop_width_upper dn2 sn2 dn1 sn1 = centerCropLower dn2 sn2 + sn2 := by
-  simp only [center_crop_width_upper, centerCropLower, Int.fdiv_eq_ediv_of_nonneg _ (by decide : (0:Int) ≤ 2)]
+  simp only [center_crop_width_upper, centerCropLower, Int.fdiv_eq_ediv_of_nonneg _ (by decide : (0:Int) ≤ 2)] <;> bridge_arith
 
 theorem center_crop_height_lower_eq (dn2 sn2 dn1 sn1 : Int) :
     center_crop_height_lower dn2 sn2 dn1 sn1 = centerCropLower dn1 sn1 := by
-  simp only [center_crop_height_lower, centerCropLower, Int.fdiv_eq_ediv_of_nonneg _ (by decide : (0:Int) ≤ 2)]
+  simp only [center_crop_height_lower, centerCropLower, Int.fdiv_eq_ediv_of_nonneg _ (by decide : (0:Int) ≤ 2)] <;> bridge_arith
 
 theorem center_crop_height_upper_eq (dn2 sn2 dn1 sn1 : Int) :
     center_crop_height_upper dn2 sn2 dn1 sn1 = centerCropLower dn1 sn1 + sn1 := by
-  simp only [center_crop_height_upper, centerCropLower, Int.fdiv_eq_ediv_of_nonneg _ (by decide : (0:Int) ≤ 2)]
+  simp only [center_crop_height_upper, centerCropLower, Int.fdiv_eq_ediv_of_nonneg _ (by decide : (0:Int) ≤ 2)] <;> bridge_arith
 
 theorem center_crop_rejects_eq (dn2 sn2 dn1 sn1 : Int) :
     center_crop_rejects dn2 sn2 dn1 sn1 = (!(centerCropOk dn2 sn2) || !(centerCropOk dn1 sn1)) := by
   simp only [center_crop_rejects, centerCropOk]
 
 theorem complex_center_crop_start_eq (n s : Int) : complex_center_crop_start n s = cccStart n s := by
-  simp only [complex_center_crop_start, cccStart, Int.fdiv_eq_ediv_of_nonneg _ (by decide : (0:Int) ≤ 2)]
+  simp only [complex_center_crop_start, cccStart, Int.fdiv_eq_ediv_of_nonneg _ (by decide : (0:Int) ≤ 2)] <;> bridge_arith
 
 theorem complex_center_crop_size_eq (n s : Int) : complex_center_crop_size n s = s := by
-  simp only [complex_center_crop_size]
+  simp only [complex_center_crop_size] <;> bridge_arith
 
 theorem pad_tensor_before_eq (t i : Int) : pad_tensor_before t i = padBefore t i := by
-  simp only [pad_tensor_before, padBefore, pyMax, Int.fdiv_eq_ediv_of_nonneg _ (by decide : (0:Int) ≤ 2)]
-  omega
+  simp only [pad_tensor_before, padBefore]
+  bridge_arith
 
 theorem pad_tensor_after_eq (t i : Int) : pad_tensor_after t i = padAfter t i := by
-  simp only [pad_tensor_after, padAfter, padBefore, pyMax, Int.fdiv_eq_ediv_of_nonneg _ (by decide : (0:Int) ≤ 2)]
-  omega
+  simp only [pad_tensor_after, padAfter, padBefore]
+  bridge_arith
 
 /-- the flat `F.pad` list: per axis `(left, right) = (before, after)` after the reversal -/
 theorem pad_tensor_pad_list_eq (dims : List (Int × Int)) :
@@ -55,26 +59,26 @@ theorem pad_tensor_pad_list_eq (dims : List (Int × Int)) :
 
 /-! `crop_to_bbox` offsets and slice bounds (element-wise reading of the numpy vector code) -/
 theorem bbox_l_offset_eq (n c s : Int) : bbox_l_offset n c s = bboxLOff c := by
-  simp only [bbox_l_offset, bboxLOff, decide_eq_true_eq]
+  simp only [bbox_l_offset, bboxLOff, decide_eq_true_eq] <;> bridge_arith
 
 theorem bbox_r_offset_eq (n c s : Int) : bbox_r_offset n c s = bboxROff n c s := by
-  simp only [bbox_r_offset, bboxROff, decide_eq_true_eq]
+  simp only [bbox_r_offset, bboxROff, decide_eq_true_eq] <;> bridge_arith
 
 theorem bbox_region_lo_eq (n c s : Int) : bbox_region_lo n c s = c + bboxLOff c := by
-  simp only [bbox_region_lo, bboxLOff, decide_eq_true_eq]
+  simp only [bbox_region_lo, bboxLOff, decide_eq_true_eq] <;> bridge_arith
 
 theorem bbox_region_hi_eq (n c s : Int) :
     bbox_region_hi n c s = max (c + bboxLOff c) (c + s - bboxROff n c s) := by
   simp only [bbox_region_hi, bboxLOff, bboxROff, pyMax, decide_eq_true_eq]
-  split <;> split <;> split <;> omega
+  split <;> split <;> split <;> bridge_arith
 
 theorem bbox_patch_lo_eq (n c s : Int) : bbox_patch_lo n c s = bboxLOff c := by
-  simp only [bbox_patch_lo, bboxLOff, decide_eq_true_eq]
+  simp only [bbox_patch_lo, bboxLOff, decide_eq_true_eq] <;> bridge_arith
 
 theorem bbox_patch_hi_eq (n c s : Int) :
     bbox_patch_hi n c s = max (bboxLOff c) (s - bboxROff n c s) := by
   simp only [bbox_patch_hi, bboxLOff, bboxROff, pyMax, decide_eq_true_eq]
-  split <;> split <;> split <;> omega
+  split <;> split <;> split <;> bridge_arith
 
 /-! `PadKspace` / `CropKspace`: the chain of calls applied to the k-space is the modelled plan -/
 theorem pad_kspace_plan_eq : Gen.C10.padKspacePlan = some Crop.padKspacePlan := by decide
